@@ -678,7 +678,7 @@ def fn_sqrt(u):
     # perfect square of a single monomial with even powers?
     if not u.d and len(u.n.t) == 1:
         (m, (c, _)), = u.n.t.items()
-        if c > 0 and all(p % 2 == 0 for _, p in m) and all(_atom_positive(a) for a, _ in m):
+        if m and c > 0 and all(p % 2 == 0 for _, p in m) and all(_atom_positive(a) for a, _ in m):
             rc = fn_sqrt(Rat.const(c))
             if rc.const_value() is not None:
                 return Rat(Poly({tuple((a, p // 2) for a, p in m): (rc.const_value(), abs(rc.const_value()))}))
